@@ -11,6 +11,7 @@ import Driver.Xen
 import Driver.Sys
 import Driver.Dump
 import Driver.Oom
+import Driver.Hist
 
 def main (args : List String) : IO UInt32 := do
   let stdin ← IO.getStdin
@@ -28,4 +29,5 @@ def main (args : List String) : IO UInt32 := do
   | ["sys"] => Driver.Sys.run stdin; return 0
   | ["dump"] => Driver.Dump.run stdin; return 0
   | ["oom"] => Driver.Oom.run stdin; return 0
+  | ["hist"] => Driver.Hist.run stdin; return 0
   | _ => IO.eprintln "usage: kdfdrv <stream>"; return 2
